@@ -43,6 +43,7 @@ DESCRIPTIONS = [
     "Literal <nowiki>markup</nowiki> inside",
     "\"Quoted start\" and then text",
     "Tab-free, comma, semi; colon: done",
+    "Unicode line\u2028separator, paragraph\u2029separator and next\u0085line inside",
 ]
 
 
